@@ -418,6 +418,9 @@ class Species(AtomCollection):
 
         if hasattr(value, "shape") and value.shape != (self.n_atoms, 3):
             try:
+                if value.shape != (self.n_atoms * 3,):
+                    raise ValueError("Unsupported gradient shape")
+
                 value = value.reshape((self.n_atoms, 3))
             except (ValueError, AttributeError):
                 raise ValueError(
